@@ -68,6 +68,9 @@ def run_slots(rec, S):
                 param_ctors.setdefault((h, pn), set()).add(ev.name)
         for name, f in fns.items():
             evs = synq.events(f)
+            if file == PEEPHOLE and any(ev_.kind == "call" and ev_.name == "write" and any((a_ or {}).get("e") == "path" and not re.search(r"::", a_.get("p", "")) for a_ in ev_.node.get("args") or []) for ev_ in evs):
+                # `let fused = SymbolicByteCode::Invoke((slot, args)); cursor.write(fused)`: read the write with the value
+                evs = synq.events({"body": synq.subst_lets(f["body"])})
             if file == PEEPHOLE:
                 # in the rewrite functions an instruction is emitted by cursor.write(..); a constructor that appears as any
                 # other argument (`instructions.skip(SymbolicByteCode::PropertySlot)`: the value expected there) emits nothing
